@@ -483,6 +483,94 @@ fn schedules(cfg: &Cfg, rng: &mut Rng) {
     ctl::global().reset();
 }
 
+/// The backend-to-frontend proxy decides twice per call whether an acknowledgement is owed (when it
+/// writes the request and when it waits). A flag change by another thread must not fall between the
+/// two: the call must still consume exactly the reply its request asked for, and complete.
+fn flag_flip(cfg: &Cfg) {
+    for (from, to) in [(true, false), (false, true)] {
+        let (endpoint, peer, ep_fd) = make_endpoint(Ep::Be, from);
+        let Endpoint::Be(b) = endpoint.clone() else { return };
+        let peer_fd = peer.as_raw_fd();
+        let c = ctl::global();
+        c.reset();
+        c.set_filter(|label, point, _| point.ends_with(".sent") && label.starts_with("caller"));
+        c.arm();
+        let (tx, rx) = mpsc::channel();
+        let tid = Arc::new(AtomicI32::new(0));
+        let t2 = tid.clone();
+        let e2 = endpoint.clone();
+        let caller = std::thread::Builder::new().name("callerA".into()).spawn(move || {
+            ctl::label("callerA");
+            t2.store(sys::gettid(), Ordering::SeqCst);
+            let _ = tx.send(do_call(&e2, Kind::K, 1));
+        }).expect("spawn");
+        let arrived = c.wait_arrival(10_000, |w| w.label == "callerA");
+        let Some(w) = arrived else {
+            report::inconclusive("flag-flip: caller did not reach be_req.sent");
+            c.free_run();
+            let _ = caller.join();
+            continue;
+        };
+        // another thread changes the flag while the transaction is open
+        let sdone = Arc::new(std::sync::atomic::AtomicBool::new(false));
+        let stid = Arc::new(AtomicI32::new(0));
+        let (sd2, st2) = (sdone.clone(), stid.clone());
+        let setter = std::thread::spawn(move || {
+            st2.store(sys::gettid(), Ordering::SeqCst);
+            b.set_reply_ack_flag(to);
+            sd2.store(true, Ordering::SeqCst);
+        });
+        sys::wait_until(5000, || sdone.load(Ordering::SeqCst) || { let t = stid.load(Ordering::SeqCst); t > 0 && sys::parked_in(t, &[sys::SYS_FUTEX]) });
+        let changed_inside = sdone.load(Ordering::SeqCst);
+        let req = peer_read(Ep::Be, peer_fd);
+        c.grant(w.ticket);
+        if let Some(r) = &req {
+            if r.owes_reply {
+                peer_reply(Ep::Be, peer_fd, r);
+            }
+        }
+        // the call must complete: parked in recvmsg with nothing in flight and nothing owed = never
+        let mut result = None;
+        let mut never = false;
+        let mut streak = 0;
+        sys::wait_until(10_000, || {
+            if let Ok(r) = rx.try_recv() {
+                result = Some(r);
+                return true;
+            }
+            let t = tid.load(Ordering::SeqCst);
+            if t > 0 && sys::inq(ep_fd) == 0 && sys::parked_in(t, &[sys::SYS_RECVMSG]) && sys::inq(ep_fd) == 0 {
+                streak += 1;
+            } else {
+                streak = 0;
+            }
+            never = streak >= 5;
+            never
+        });
+        let unread = if result.is_some() { sys::inq(ep_fd) } else { 0 };
+        unsafe { libc::shutdown(ep_fd, libc::SHUT_RDWR) };
+        c.free_run();
+        let _ = caller.join();
+        let _ = setter.join();
+        c.reset();
+        report::eval(1);
+        report::count("schedules.flag_flip", 1);
+        report::distinct_str(&format!("flagflip:{from}:{to}:{changed_inside}"));
+        let detail = jo! {"reply_ack_before" => from, "set_reply_ack_flag" => to, "setter_returned_while_transaction_open" => changed_inside,
+            "request_asked_for_ack" => req.as_ref().map(|r| r.owes_reply), "call_result" => format!("{result:?}"), "unread_reply_bytes" => unread};
+        if never {
+            report::violation("C10:be:flag-flip:calls-never-complete", detail, cfg.replay("flagflip"));
+        } else if result != Some(Ok(expected_value(Kind::K, 1))) {
+            report::violation("C10:be:flag-flip:caller-got-foreign-or-no-reply", detail, cfg.replay("flagflip"));
+        } else if unread > 0 {
+            report::violation("C10:be:flag-flip:reply-left-unread", detail, cfg.replay("flagflip"));
+        } else {
+            report::sample("flag-flip", detail);
+        }
+        drop(peer);
+    }
+}
+
 /// Stress: many threads, immediate replies tagged by request content, random jitter at the hooks.
 fn stress(cfg: &Cfg, rng: &mut Rng) {
     let threads = 8u32;
@@ -583,6 +671,9 @@ pub fn run(cfg: &Cfg) {
     }
     if part.is_empty() || part == "all" || part.starts_with("sched") || part == "close" {
         schedules(&c, &mut rng);
+    }
+    if (part.is_empty() && cfg.shard == 1 % cfg.nshards.max(1)) || part == "all" || part == "flagflip" {
+        flag_flip(cfg);
     }
     if (part.is_empty() && cfg.shard == 0) || part == "all" || part == "stress" {
         stress(cfg, &mut rng);
